@@ -95,12 +95,24 @@ func VerifC05_Prune() {
 	dryRun := (verifChoose("--dry-run", 2) == 1)
 
 	// the repository
-	const headSha, otherSha, branchSha = "1111111111111111111111111111111111111111", "2222222222222222222222222222222222222222", "3333333333333333333333333333333333333333"
+	const headSha, branchSha = "1111111111111111111111111111111111111111", "3333333333333333333333333333333333333333"
+	// the added worktree is on a commit of its own, or - right after `git
+	// worktree add` - on the very commit the main working tree is on
+	const sideSha = "2222222222222222222222222222222222222222"
+	otherSha := ""
+	chooseOther := func() {
+		if otherSha == "" {
+			otherSha = sideSha
+			if verifChoose("other.worktree.at.head.commit", 2) == 1 {
+				otherSha = headSha
+			}
+		}
+	}
 	headDate := verifT0.AddDate(0, 0, -2)
 	repo := &lfs.VerifRepoModel{Tree: map[string][]string{}, Index: map[string][]string{}, Unpushed: map[string][]string{}, Previous: map[string][]lfs.VerifVersion{}}
 	lfs.VerifRepo = repo
 	git.VerifHead = &git.Ref{Name: "main", Type: git.RefTypeLocalBranch, Sha: headSha}
-	git.VerifCommitDates = map[string]time.Time{headSha: headDate, otherSha: headDate, branchSha: headDate}
+	git.VerifCommitDates = map[string]time.Time{headSha: headDate, sideSha: headDate, branchSha: headDate}
 	git.VerifBranches = nil
 	otherAttr := -1 // attribute of the added worktree, chosen when an object lives there
 	subprocess.VerifWaitErr = nil
@@ -133,12 +145,14 @@ func VerifC05_Prune() {
 			repo.Index[root+"/work"] = append(repo.Index[root+"/work"], oid)
 			needed[oid] = true
 		case roleOtherWorktreeHead:
+			chooseOther()
 			if otherAttr < 0 {
 				otherAttr = verifChoose("other.worktree.attribute", 4)
 			}
 			repo.Tree[otherSha] = append(repo.Tree[otherSha], oid)
 			needed[oid] = !force
 		case roleOtherWorktreeIndex:
+			chooseOther()
 			if otherAttr < 0 {
 				otherAttr = verifChoose("other.worktree.attribute", 4)
 			}
@@ -184,6 +198,9 @@ func VerifC05_Prune() {
 	// worktree, which may be locked (with or without a reason) or prunable
 	if otherAttr < 0 {
 		otherAttr = 0
+	}
+	if otherSha == "" {
+		otherSha = sideSha
 	}
 	listing := "worktree " + root + "/work\x00HEAD " + headSha + "\x00branch refs/heads/main\x00\x00"
 	listing += "worktree " + root + "/other\x00HEAD " + otherSha + "\x00branch refs/heads/side\x00"
